@@ -234,7 +234,11 @@ impl<'a> G<'a> {
             });
         }
         for _ in 0..self.rng.below(3) {
-            let t = if (self.allow("non-xml-character") || self.allow("lossy-text")) && self.rng.chance(1, 3) { self.hostile_text() } else { format!("tag{}", self.rng.below(20)) };
+            let t = if (self.allow("non-xml-character") || self.allow("lossy-text")) && self.rng.chance(1, 3) { self.hostile_text() } else if self.rng.chance(1, 4) {
+                // blanks at the edges of a tag are content like any other character
+                let n = self.rng.below(20);
+                match self.rng.below(3) { 0 => format!("tag{} ", n), 1 => format!(" tag{}", n), _ => format!("\ttag {}", n) }
+            } else { format!("tag{}", self.rng.below(20)) };
             e.tags.push(t);
         }
         e.times = self.times();
